@@ -1,7 +1,7 @@
 (* Props/C04.v — entry reads and writes behave like an F-ordered mutable array over any history.
    Only statements, `exact`, Print Assumptions (+ concrete non-vacuity examples). Definitions: Model/C04Model.v. *)
 From Coq Require Import List Arith Bool ZArith.
-From PV Require Import Base.Index Np.Array Model.Sparse Model.C04Model Proofs.C04Dense Proofs.C04Sparse Proofs.C04History.
+From PV Require Import Base.Index Np.Array Model.Sparse Model.C04Model Proofs.C04Dense Proofs.C04Sparse Proofs.C04History Proofs.C04Admissible Proofs.C04RegionGet.
 Import ListNotations.
 
 Section C04.
@@ -76,6 +76,22 @@ Theorem C04_dense_sparse_equal : forall ops (T : dense V) (S : sparse V) S' outs
     run (step_sparse v0 isz) S (firstn k ops) = Some (Sk, outsk) /\
     eq_amap (abs_dense v0 Tk) (abs_sp v0 Sk) /\ wf_sp isz Sk.
 Proof. exact (dense_sparse_equal_every_step v0 isz isz_spec). Qed.
+
+(* the decidable side conditions of the sparse model never fail for subscript-array writes: whenever the
+   specification accepts S[rows] = rhs (any rows incl. duplicates, growth of extent and order), so does the sparse model *)
+Theorem C04_sparse_subs_admissible : forall (S : sparse V) rows (r : rhs V) s' asg,
+  wf_sp isz S -> resolve_set cartF (sshape S) (KSubs rows) r = Some (s', asg) ->
+  exists S', step_sparse v0 isz S (OSet (KSubs rows) r) = Some (S', ([], [])).
+Proof. exact (sparse_subs_admissible v0 isz). Qed.
+
+(* sptensor region read as pyttb computes it (subdims filter + tt_renumber, model sp_region_get): the result has the shape of
+   the kept modes, every region position has a renumbered subscript, and the result holds there what the tensor holds *)
+Theorem C04_sparse_region_read : forall (S R : sparse V) es ls,
+  region_lists (sshape S) es = Some ls -> sp_region_get S es = Some R ->
+  sshape R = kept_shape ls /\
+  (forall p, In p (cartF (map snd ls)) -> exists j, renumber ls p = Some j) /\
+  (forall p j, renumber ls p = Some j -> den_sp v0 R j = den_sp v0 S p).
+Proof. exact (sp_region_get_den v0). Qed.
 End C04.
 
 Print Assumptions C04_spec_last_write_wins.
@@ -88,6 +104,8 @@ Print Assumptions C04_history_sparse.
 Print Assumptions C04_history_fold_dense.
 Print Assumptions C04_history_fold_sparse.
 Print Assumptions C04_dense_sparse_equal.
+Print Assumptions C04_sparse_subs_admissible.
+Print Assumptions C04_sparse_region_read.
 
 (* non-vacuity: a concrete history on a 2x3 tensor whose sparse form is stored out of order — write by subscripts with a
    duplicate and a zero (deletes [0,0]), grow by a full subscript, write a stepped region, read linearly and by region *)
